@@ -51,7 +51,7 @@ def gen(rs, tier, index):
     comb = kinds_with(seq=False, exclude=('rot',)) + kinds_with(tag='rot') + (kinds_with(tag='big') if tier == 'thorough' or rng.random() < 0.15 else [])
     comb = comb + kinds_with(tag='ifaceport')        # user primitive with interface-declared ports
     comb = comb + kinds_with(tag='perinst')          # one class, structural or behavioural per instance (method bound to the object)
-    seqk = [KINDS[k] for k in ('Reg', 'Counter', 'DelayLine', 'TReg')]
+    seqk = [KINDS[k] for k in ('Reg', 'Counter', 'DelayLine', 'TReg', 'MooreAcc')]      # MooreAcc: a leaf with clock() and propagate()
     scn = {'mode': 'acyclic'}
     bulk = rng.random()
     if bulk < (0.004 if tier == 'quick' else 0.0015):
@@ -68,7 +68,7 @@ def gen(rs, tier, index):
         n = rng.choice([3, 5, 8, 12, 20, 30]) if tier == 'quick' else rng.choice([5, 12, 30, 60, 100])
         scn['design'] = netlist.gen_design(rng, n, comb, hier_depth=rng.choice([0, 0, 1, 2, 3]),
                                            feedback=rng.choice([0, 0.1, 0.3]), seq_kinds=seqk,
-                                           seq_frac=rng.choice([0, 0.1, 0.25]))
+                                           seq_frac=rng.choice([0, 0.1, 0.25]), big=rng.random() < 0.03)
     d = scn['design']
     if scn.get('bulk'):
         pass
